@@ -704,16 +704,17 @@ vk_harness!(c18_return_without_gosub, {
 //@ tier: quick
 //@ unwind: 12
 //@ encodes: Runtime::r#print (string item); Stack::pop
-//@ bounds: printed string of 0..=4 characters, each any ASCII character (newline included, at any position); cursor column any u8 before
+//@ bounds: printed string of 0..=3 characters, each any ASCII character (newline included, at any position); cursor column any u8 before
+//@ verbose: off
 vk_harness!(c11_print_tracks_column, {
     let mut r = Runtime::default();
     let col0 = vk::any_u8() as usize;
     r.print_col = col0;
-    let n = vk::any_below(5) as usize;
-    let mut chars = [0u8; 4];
+    let n = vk::any_below(4) as usize;
+    let mut chars = [0u8; 3];
     let mut s = String::new();
     let mut i = 0;
-    while i < 4 {
+    while i < 3 {
         let c = vk::any_u8();
         vk::assume(c < 128);
         chars[i] = c;
@@ -727,7 +728,7 @@ vk_harness!(c11_print_tracks_column, {
     // oracle: characters since the last newline, carried over from the column before
     let mut want = col0;
     let mut j = 0;
-    while j < 4 {
+    while j < 3 {
         if j < n {
             if chars[j] == b'\n' {
                 want = 0;
@@ -742,7 +743,7 @@ vk_harness!(c11_print_tracks_column, {
         Ok(Event::Print(text)) => vk_check!(text.len() == n, "C11: PRINT emits exactly the item's characters"),
         _ => vk_check!(false, "C11: PRINT of a string must emit it"),
     }
-    vk_cover!(n == 4 && chars[1] == b'\n' && chars[3] != b'\n', "reach: embedded newline");
+    vk_cover!(n == 3 && chars[1] == b'\n' && chars[2] != b'\n', "reach: embedded newline");
     vk_cover!(n == 0, "reach: empty string");
     core::mem::forget(r);
 });
